@@ -384,6 +384,20 @@ fn anchor_stmt(name: &str) -> Stmt {
     parse_quote!( __vx_anchor!(#id); )
 }
 
+/// anchor next to a `let <ident> = ..;` statement: the marker also carries the bound name (`$lhs` in anchor text)
+fn anchor_stmt_at(name: &str, matched: &Stmt) -> Stmt {
+    let id = proc_macro2::Ident::new(name, proc_macro2::Span::call_site());
+    if let Stmt::Local(l) = matched {
+        let mut pat = &l.pat;
+        if let syn::Pat::Type(pt) = pat { pat = &pt.pat; }
+        if let syn::Pat::Ident(pi) = pat {
+            let lhs = &pi.ident;
+            return parse_quote!( __vx_anchor!(#id, #lhs); );
+        }
+    }
+    parse_quote!( __vx_anchor!(#id); )
+}
+
 /// Insert anchors into a block's statement list. Returns the names placed.
 fn is_block_like(e: &Expr) -> bool {
     matches!(e, Expr::If(_) | Expr::Match(_) | Expr::ForLoop(_) | Expr::While(_) | Expr::Loop(_) | Expr::Block(_) | Expr::Unsafe(_))
@@ -462,9 +476,11 @@ fn place_anchors_in_block(block: &mut Block, anchors: &[AnchorReq], placed: &mut
                                 *semi = Some(Default::default());
                             }
                         }
-                        b.stmts.insert(i + 1, anchor_stmt(&self.name));
+                        let st = anchor_stmt_at(&self.name, &b.stmts[i]);
+                        b.stmts.insert(i + 1, st);
                     } else {
-                        b.stmts.insert(i, anchor_stmt(&self.name));
+                        let st = anchor_stmt_at(&self.name, &b.stmts[i]);
+                        b.stmts.insert(i, st);
                     }
                     return;
                 }
